@@ -20,7 +20,7 @@ type C09 struct{}
 
 func (C09) ID() string { return "C09" }
 func (C09) Rule() string {
-	return "rapid-generated trees (<=10 nodes) x {fatal-on-fs-errors, size limit, gitignore, whole tree / requested paths, symlink reading} x 1-3 extractors; per tree the fault-free history is recorded and EVERY single fault (site = k-th occurrence of stat/open/readdir/fstat/read/readdirall on a path; kinds perm/notexist/eio, eio-partial for reads, and persistent variants in which every occurrence from the k-th on fails) is injected, plus every ordered pair (second site taken from the history of the run with the first fault; kinds perm,eio) when the fault-free history has <= 40 file-system operations (quick) / <= 90 (thorough); evaluation = one scan under one fault plan; non-trivial scenario = at least one fault fired AND at least one extraction lies outside its blast radius; distinct = distinct scenario JSON"
+	return "rapid-generated trees (<=10 nodes; 1 in 4 whole-tree scenarios with a second scan root) x {fatal-on-fs-errors, size limit, gitignore, whole tree / requested paths, symlink reading} x 1-3 extractors; per tree the fault-free history is recorded and EVERY single fault (site = k-th occurrence of stat/open/readdir/fstat/read/readdirall on a path; kinds perm/notexist/eio, eio-partial for reads, and persistent variants in which every occurrence from the k-th on fails) is injected, plus every ordered pair (second site taken from the history of the run with the first fault; kinds perm,eio) when the fault-free history has <= 40 file-system operations (quick) / <= 90 (thorough); evaluation = one scan under one fault plan; non-trivial scenario = at least one fault fired AND at least one extraction lies outside its blast radius; distinct = distinct scenario JSON"
 }
 
 func (C09) Gen(rt *rapid.T, tier string) any {
@@ -52,6 +52,10 @@ func (C09) Gen(rt *rapid.T, tier string) any {
 		}
 	}
 	cfg.Disk = DiskPlan{Chunk: rapid.SampledFrom([]int{0, 5, 16}).Draw(rt, "chunk"), NoReadDirFile: rapid.IntRange(0, 5).Draw(rt, "noreaddirfile") == 5}
+	if len(cfg.PathsToExtract) == 0 && rapid.IntRange(0, 3).Draw(rt, "tworoots") == 3 {
+		// a fault in one scan root must not reach into the other (they share the walk context)
+		cfg.Roots = append(cfg.Roots, RootSpec{Tree: genTree(rt, TreeOpts{MaxNodes: 6, MaxDepth: 2, Symlinks: true, Gitignore: true, MaxSize: 40}, "t2")})
+	}
 	return cfg
 }
 
@@ -90,6 +94,7 @@ func kindsFor(op string, pair bool) []string {
 
 // failingObject is what a delivered fault is allowed to take down.
 type failingObject struct {
+	Root      string // root label of the object ("" in single-root scans)
 	Dir       string // everything under this directory (non-empty => directory object)
 	File      string // this file, for every extractor
 	Path, Ext string // this (file, extractor) attempt
@@ -107,9 +112,26 @@ type faultAnalysis struct {
 	Traversal bool
 }
 
+// splitLabel separates the "rN:" root label multi-root runs put in front of event paths.
+func splitLabel(p string) (root, rest string) {
+	if i := strings.Index(p, ":"); i > 0 && p[0] == 'r' {
+		return p[:i], p[i+1:]
+	}
+	return "", p
+}
+
+func treeOf(cfg *Config, root string) *Node {
+	if root != "" {
+		var i int
+		if _, err := fmt.Sscanf(root, "r%d", &i); err == nil && i < len(cfg.Roots) {
+			return cfg.Roots[i].Tree
+		}
+	}
+	return cfg.Roots[0].Tree
+}
+
 func analyse(cfg *Config, obs *Obs) *faultAnalysis {
 	fa := &faultAnalysis{FailedExt: map[string]bool{}, StatFiles: map[string]bool{}}
-	tree := cfg.Roots[0].Tree
 	var pendP, pendE string // last "required? = true" not yet consumed by an open
 	var openP, openE string // owner of the most recent successful open (for fstat)
 	var curP, curE string   // extraction in progress
@@ -122,7 +144,13 @@ func analyse(cfg *Config, obs *Obs) *faultAnalysis {
 		}
 		return false
 	}
-	for _, e := range obs.Events {
+	for _, ev := range obs.Events {
+		e := ev
+		root := ""
+		if fsOps[e.Op] {
+			root, e.Path = splitLabel(e.Path)
+		}
+		tree := treeOf(cfg, root)
 		// a pending "required" is consumed by the very next open of that path; any file-system
 		// operation on another path in between means the engine moved on (e.g. size-limit skip)
 		if fsOps[e.Op] && e.Path != pendP {
@@ -139,7 +167,8 @@ func analyse(cfg *Config, obs *Obs) *faultAnalysis {
 				pendP, pendE = "", ""
 			}
 		case "extract-begin":
-			curP, curE = unlabel(e.Path), e.Arg
+			_, curP = splitLabel(e.Path)
+			curE = e.Arg
 		case "extract-end":
 			curP, curE = "", ""
 		case "stat":
@@ -153,11 +182,11 @@ func analyse(cfg *Config, obs *Obs) *faultAnalysis {
 			}
 			n := tree.Lookup(e.Path)
 			if e.Path == "." || (n != nil && n.IsDir()) {
-				fa.Objects = append(fa.Objects, failingObject{Dir: e.Path, Traversal: true})
+				fa.Objects = append(fa.Objects, failingObject{Root: root, Dir: e.Path, Traversal: true})
 				fa.Traversal = true
 			} else {
 				// a predicate that consults Stat may answer anything for this file
-				fa.Objects = append(fa.Objects, failingObject{File: e.Path, StatFault: true})
+				fa.Objects = append(fa.Objects, failingObject{Root: root, File: e.Path, StatFault: true})
 				fa.StatFiles[e.Path] = true
 				if isReq(e.Path) && lastInode != e.Path {
 					fa.Traversal = true // the walk's own stat of a requested path, not the lazy stat
@@ -170,11 +199,11 @@ func analyse(cfg *Config, obs *Obs) *faultAnalysis {
 			owned := pendP == e.Path && pendE != ""
 			switch {
 			case isDir && e.Fault:
-				fa.Objects = append(fa.Objects, failingObject{Dir: e.Path, Traversal: true})
+				fa.Objects = append(fa.Objects, failingObject{Root: root, Dir: e.Path, Traversal: true})
 				fa.Traversal = true
 			case owned:
 				if failed {
-					fa.Objects = append(fa.Objects, failingObject{Path: e.Path, Ext: pendE})
+					fa.Objects = append(fa.Objects, failingObject{Root: root, Path: e.Path, Ext: pendE})
 					fa.FailedExt[pendE] = true
 					openP, openE = "", ""
 				} else {
@@ -182,32 +211,32 @@ func analyse(cfg *Config, obs *Obs) *faultAnalysis {
 				}
 				pendP, pendE = "", ""
 			case e.Fault && path.Base(e.Path) == ".gitignore":
-				fa.Objects = append(fa.Objects, failingObject{Dir: path.Dir(e.Path), Gitignore: true})
+				fa.Objects = append(fa.Objects, failingObject{Root: root, Dir: path.Dir(e.Path), Gitignore: true})
 			case e.Fault:
-				fa.Objects = append(fa.Objects, failingObject{File: e.Path})
+				fa.Objects = append(fa.Objects, failingObject{Root: root, File: e.Path})
 			}
 		case "fstat":
 			if e.Fault {
 				if openP == e.Path && openE != "" {
-					fa.Objects = append(fa.Objects, failingObject{Path: e.Path, Ext: openE})
+					fa.Objects = append(fa.Objects, failingObject{Root: root, Path: e.Path, Ext: openE})
 					fa.FailedExt[openE] = true
 				} else {
-					fa.Objects = append(fa.Objects, failingObject{File: e.Path})
+					fa.Objects = append(fa.Objects, failingObject{Root: root, File: e.Path})
 				}
 			}
 		case "read":
 			if e.Fault {
 				if curP == e.Path && curE != "" {
-					fa.Objects = append(fa.Objects, failingObject{Path: e.Path, Ext: curE})
+					fa.Objects = append(fa.Objects, failingObject{Root: root, Path: e.Path, Ext: curE})
 				} else if path.Base(e.Path) == ".gitignore" {
-					fa.Objects = append(fa.Objects, failingObject{Dir: path.Dir(e.Path), Gitignore: true})
+					fa.Objects = append(fa.Objects, failingObject{Root: root, Dir: path.Dir(e.Path), Gitignore: true})
 				} else {
-					fa.Objects = append(fa.Objects, failingObject{File: e.Path})
+					fa.Objects = append(fa.Objects, failingObject{Root: root, File: e.Path})
 				}
 			}
 		case "readdir", "readdirall":
 			if e.Fault {
-				fa.Objects = append(fa.Objects, failingObject{Dir: e.Path, Traversal: true})
+				fa.Objects = append(fa.Objects, failingObject{Root: root, Dir: e.Path, Traversal: true})
 				fa.Traversal = true
 			}
 		}
@@ -220,8 +249,11 @@ func analyse(cfg *Config, obs *Obs) *faultAnalysis {
 	return fa
 }
 
-func (fa *faultAnalysis) covers(ext, p string) (inside bool, extraOK bool) {
+func (fa *faultAnalysis) covers(ext, root, p string) (inside bool, extraOK bool) {
 	for _, o := range fa.Objects {
+		if o.Root != root {
+			continue
+		}
 		switch {
 		case o.Dir != "":
 			if under(p, o.Dir) {
@@ -306,7 +338,7 @@ func checkFaulted(cfg *Config, plan []Fault, h0 *Obs, obs *Obs, out *sim.Outcome
 		}
 		return k
 	}
-	ctx := fmt.Sprintf("plan [%s] on tree {%s} [%s]", planString(plan), cfg.Roots[0].Tree, configSummary(cfg))
+	ctx := fmt.Sprintf("plan [%s] on tree {%s} [%s]", planString(plan), treesString(cfg), configSummary(cfg))
 	for _, f := range plan {
 		if obs.Fired[f.Site()] > 0 {
 			fired++
@@ -342,7 +374,7 @@ func checkFaulted(cfg *Config, plan []Fault, h0 *Obs, obs *Obs, out *sim.Outcome
 	got := extractSigs(obs)
 	for _, k := range sortedKeys(want) {
 		parts := strings.SplitN(k, "|", 3)
-		inside, _ := fa.covers(parts[0], parts[2])
+		inside, _ := fa.covers(parts[0], parts[1], parts[2])
 		w, g := want[k], got[k]
 		if inside {
 			if g != nil && g.n > w.n {
@@ -368,7 +400,7 @@ func checkFaulted(cfg *Config, plan []Fault, h0 *Obs, obs *Obs, out *sim.Outcome
 			continue
 		}
 		parts := strings.SplitN(k, "|", 3)
-		if _, extraOK := fa.covers(parts[0], parts[2]); extraOK {
+		if _, extraOK := fa.covers(parts[0], parts[1], parts[2]); extraOK {
 			continue
 		}
 		out.Violate("extra-extract", key("extra-extract"), "%s extracted under faults but not in the fault-free scan; %s", k, ctx)
@@ -523,6 +555,6 @@ func (C09) Run(t *testing.T, sc any) *sim.Outcome {
 		out.Count("sites", int64(len(sites)))
 	}
 	out.Nontrivial = firedAny && outsideAny
-	out.Sample = map[string]any{"tree": cfg.Roots[0].Tree.String(), "config": configSummary(cfg), "fault_free_fs_ops": len(sitesOf(h0.Events)), "fault_plans_run": out.Executions - 1}
+	out.Sample = map[string]any{"tree": treesString(cfg), "config": configSummary(cfg), "fault_free_fs_ops": len(sitesOf(h0.Events)), "fault_plans_run": out.Executions - 1}
 	return out
 }
